@@ -46,6 +46,8 @@ OF OR IN CONNECTION WITH THE SOFTWARE OR THE USE OR OTHER DEALINGS IN THE SOFTWA
 
 #include "SimpSMTSolver.h"
 
+#include <common/VerifTrace.h>
+
 #include <common/ReportUtils.h>
 
 //=================================================================================================
@@ -280,6 +282,13 @@ bool SimpSMTSolver::strengthenClause(CRef cr, Lit l)
         n_occ[toInt(l)]--;
         updateElimHeap(var(l));
     }
+#ifdef OPENSMT_VERIF
+    if (OSMT_VERIF_TRACING()) {
+        vec<Lit> strengthened;
+        for (unsigned i = 0; i < c.size(); i++) { strengthened.push(c[i]); }
+        verif::emitClause("DERIVED strengthen", theory_handler.getLogic(), strengthened, [this](Var v) { return theory_handler.varToTerm(v); });
+    }
+#endif
 
     return c.size() == 1 ? enqueue(c[0]) && propagate() == CRef_Undef : true;
 }
@@ -568,6 +577,7 @@ static void mkElimClause(vec<uint32_t>& elimclauses, Var v, Clause& c)
 
 bool SimpSMTSolver::eliminateVar(Var v)
 {
+    OSMT_VERIF_DERIVATION_SCOPE("eliminateVar");
     assert(!frozen[v]);
     assert(!isEliminated(v));
     assert(value(v) == l_Undef);
@@ -637,6 +647,7 @@ bool SimpSMTSolver::eliminateVar(Var v)
 
 bool SimpSMTSolver::substitute(Var v, Lit x)
 {
+    OSMT_VERIF_DERIVATION_SCOPE("substitute");
     assert(!frozen[v]);
     assert(!isEliminated(v));
     assert(value(v) == l_Undef);
